@@ -4,6 +4,7 @@ import ERP.Lemmas.Monad
 import ERP.Properties.C17
 import ERP.Lemmas.GenGeometry
 import ERP.Lemmas.GenConsts
+import ERP.Lemmas.GenTies
 /-! # C12 — The excluded area never shrinks during an active print unless explicitly allowed -/
 namespace ERP.C12
 open ERP
